@@ -399,6 +399,15 @@ def Pat.hasCls : Pat → Bool
   | .group _ b => b.hasCls
   | _ => false
 
+/-- a non-inverted class whose text starts with `^` (a reversed range was dropped in front of a `^`
+member): the regex crate reads it as a negation -/
+def Pat.caretFirst : Pat → Bool
+  | .bracket inv ms => !inv && (match ms.flatMap Member.render with | '^' :: _ => true | _ => false)
+  | .seq a b => a.caretFirst || b.caretFirst
+  | .alt a b => a.caretFirst || b.caretFirst
+  | .group _ b => b.caretFirst
+  | _ => false
+
 def Pat.hasBang : Pat → Bool
   | .seq a b => a.hasBang || b.hasBang
   | .alt a b => a.hasBang || b.hasBang
